@@ -219,6 +219,11 @@ Definition set_ks d x := mkDb (d_spent d) (d_pending d) (d_sigs d) (d_mq d) (d_l
 Definition sql_int_ok (z : Z) : bool := (0 <=? z) && (z <? two63).
 
 (* storage semantics: each call is atomic; inserts fail as a whole on a key clash *)
+(* the views total_issued / total_redeemed are SUM(amount) GROUP BY keyset_id: SQLite's SUM over integers raises "integer overflow"
+   when a group's sum does not fit an int64, and (since fix 6b60522) the error of the row iteration is returned *)
+Definition sum_view (v : list (Z * Z)) : res (list (Z * Z)) :=
+  if existsb (fun x => two63 <=? snd x) v then RErr else ROk v.
+
 Definition exec_db (c : cmd) (d : db) : db * resp c :=
   match c return db * resp c with
   | GetPending ys => (d, ROk (filter (fun r => mem (r_y r) ys) (d_pending d)))
@@ -248,8 +253,8 @@ Definition exec_db (c : cmd) (d : db) : db * resp c :=
   | GetMeltQuoteByReq r => (d, ROk (find (fun q => lq_req q =? r) (d_lq d)))
   | UpdateMeltQuote id pre st =>
       if mem id (map lq_id (d_lq d)) then (set_lq d (upd_lq id pre st (d_lq d)), ROk tt) else (d, RErr)
-  | GetIssued => (d, ROk (sum_by_ks (map (fun s => (s_ks s, s_amount s)) (d_sigs d)) []))
-  | GetRedeemed => (d, ROk (sum_by_ks (map (fun r => (r_ks r, r_amount r)) (d_spent d)) []))
+  | GetIssued => (d, sum_view (sum_by_ks (map (fun s => (s_ks s, s_amount s)) (d_sigs d)) []))
+  | GetRedeemed => (d, sum_view (sum_by_ks (map (fun r => (r_ks r, r_amount r)) (d_spent d)) []))
   | GetKeysets => (d, ROk (d_ks d))
   | SaveKeyset k =>
       if mem (k_id k) (map k_id (d_ks d)) then (d, RErr) else (set_ks d (d_ks d ++ [k]), ROk tt)
